@@ -193,6 +193,7 @@ pub struct StreamRun {
 pub fn run_stream(case: &StreamCase, mon: &mut Mon) -> StreamRun {
     let mut sim = SimReader::new(&case.input, &case.plan);
     let shared = sim.shared.clone();
+    shared.trace.set(mon.keep_log);
     mon.evaluations += 1;
     let runner = StreamRunner {
         opts: opts::parse_options(case.opts),
@@ -204,6 +205,11 @@ pub fn run_stream(case: &StreamCase, mon: &mut Mon) -> StreamRun {
     };
     let (items, fired_item) = with_adapter(&case.input, &case.plan, &mut sim, runner);
     mon.steps += shared.calls.get();
+    if mon.keep_log {
+        for l in shared.calls_log.borrow_mut().drain(..) {
+            mon.log.push(format!("    {}", l));
+        }
+    }
     StreamRun { items, fired_item, shared }
 }
 
